@@ -142,6 +142,14 @@ reg('C06',
     'the analytic rest height (spring + lying capsule: recorded known finding); sphere rebound ratio within the property\'s margins. Sampling, not proof.',
     'margins are the property\'s; brax\'s own contact distance decides "separated"; diverged/limit-reaching cases counted, not compared', 'DESIGN.md section 4 C06')
 
+reg('C16',
+    'property-based testing (Hypothesis-drawn keys, action kinds and episode lengths; every env x backend combination enumerated): Env-contract predicates and per-step invariants over generated rollouts, repeat-run and other-members-changed metamorphic checks',
+    'For each of the 31 environment x backend combinations, on the rollouts actually run (quick: batch 8 x 200 steps with episode_length 60, plus episode_length 8 on three cheap envs; '
+    'thorough: batch 128 x 1000 steps, episode lengths 8/60/1000): declared observation/action sizes hold, done is 0 at reset and always in {0,1}, observations, rewards, q, qd stay '
+    'finite, link rotations stay unit to 2e-6, the rollout is bit-reproducible and member 0 does not depend on the other members. swimmer is the recorded known finding. '
+    'The property quantifies over all action sequences; this is sampling only.',
+    'float32; action sequences expanded from a drawn key; brax.v1 stubbed', 'DESIGN.md section 4 C16')
+
 PENDING = {}
 
 
